@@ -202,6 +202,13 @@ def body(chk, db, cfgname):
         pf = db.fn(partfn)
         written = {w for w in eff.this_writes(pf) if not w.startswith("deref:")}
         synced = sync_set(sf, sp, partrec, db)
+        # a transfer that is conditional on the part's own data is not a synchronisation of every part
+        cond = conditional_syncs(sf, sp, partrec, db)
+        for fld_, (node_, guard_) in sorted(cond.items()):
+            if fld_ in written:
+                r4.bad("%s:conditional-sync(%s)" % (syncfn, fld_.split("::")[-1]), sf.loc(node_),
+                       "%s is written by %s for every part, but %s transmits it only under the part-dependent condition '%s': for the other parts the ranks that did not run the job keep stale data "
+                       "(e.g. the eigenvector entry of a 1x1 block is set to 1 only on the owner)" % (fld_.split("::")[-1], partfn, syncfn, guard_), cfgname)
         missing = sorted(written - synced)
         site = "%s:sync(%s)" % (syncfn, partfn.split("::")[-2])
         if not missing:
@@ -328,6 +335,14 @@ def body(chk, db, cfgname):
                 else:
                     r6.bad(site, f.loc(j), "count %s is not the extent of %s on this path (container not resized to the count before the transfer, or count taken from another object)" % (
                         ks(c["count"]), ks(X)), cfgname)
+
+    # ================================================================== R7
+    r7 = chk.rule("C06-R7", "termination, structural part: every rank that runs the worker loop is enrolled in the master's worker pool", "F1 full-range", 3)
+    from checks.c16 import check_pool
+    runs = [x for x in db.fns.values() if strip_targs(x.name) == "pMPI::mpi_skel::run"]
+    if len(runs) < 3:
+        raise AnalysisBroken("expected three instantiations of mpi_skel::run")
+    check_pool(r7, db, cfgname, sp, runs)
 
     chk.undecided.append("termination of the dispatch protocol for every message schedule (model checking, a different family); equality of floating-point results to rounding (reduction order)")
     chk.trusted.append("Boost.MPI semantics: communicator::split orders ranks by world rank; broadcast of a serialised container resizes the receiver")
@@ -523,6 +538,43 @@ def sync_set(sf, sp, partrec, db):
             pf = part_field(ctx.key(n["l"], inline=False))
             if pf:
                 out.add(pf)
+    return out
+
+
+def conditional_syncs(sf, sp, partrec, db):
+    """fields of the part whose transfer (collective payload) is guarded by a condition that mentions the part itself"""
+    from pv.expr import guard_facts as _gf
+    ctx = sp.ctx(sf)
+    at = _gf(sf, ctx)
+    out = {}
+    pname = partrec.split("::")[-1]
+    for j, n in sf.walk(sf.body):
+        if n["k"] != "call":
+            continue
+        c = sp.classify(sf, j)
+        if c is None or c["kind"] != "coll" or c.get("payload") is None:
+            continue
+        pk = c["payload"]
+        # the part object the payload belongs to:  X->F... / X.F...
+        part_obj = None
+        k = pk
+        for _ in range(20):
+            if not isinstance(k, tuple):
+                break
+            if k[0] == "field" and (k[1].rsplit("::", 1)[0] == partrec or k[1].rsplit("::", 1)[0] in base_closure(db, partrec)) and k[2] != ("this",):
+                part_obj = k[2]
+                fldname = k[1]
+                break
+            k = k[2] if len(k) > 2 and k[0] in ("field", "mcall", "op", "un") else None
+        if part_obj is None:
+            continue
+        fa = at.get(sf.cfg.pos1(j), frozenset())
+        for x in fa:
+            if key_contains(x, lambda y: y == part_obj) and not rank_tainted(x[1] if len(x) > 1 else x) and not (len(x) > 2 and isinstance(x[2], tuple) and rank_tainted(x[2])):
+                # conditions on the part's Status are the "did this rank compute it" sanity checks, not data-dependent filters
+                if key_contains(x, lambda y: y[0] == "field" and y[1].endswith("::Status")):
+                    continue
+                out[fldname] = (j, fact_str(x))
     return out
 
 
